@@ -22,6 +22,25 @@ def _fake():
     _state["t"] += 7.0 if x < 0.05 else x * 1e-3
     return _state["t"]
 time.time = _fake
+# a different heap history: holes of many sizes, so that objects created later do not come out in address order
+# (nothing in a trace may depend on id() / memory addresses)
+class _J:
+    pass
+_junk = []
+for _i in range(20000):
+    _o = _J()
+    if _state["rng"].random() < 0.5:
+        _o.a = _i
+    if _state["rng"].random() < 0.3:
+        _o.b = [_i] * _state["rng"].randrange(1, 8)
+    _junk.append(_o)
+_state["rng"].shuffle(_junk)
+_keep = _junk[: len(_junk) // 2]
+del _junk, _o
+# ... and another address space altogether: id() keeps identifying objects but orders them the other way round
+import builtins
+_real_id = builtins.id
+builtins.id = lambda _obj: -_real_id(_obj)
 sys.argv = ["main.py"] + sys.argv[1:]
 runpy.run_path("main.py", run_name="__main__")
 '''
@@ -50,6 +69,14 @@ def gen_case(seed):
         w = W.gen_world(seed, "clockwork", {})
         w["preload"] = []
         w["flags"]["scheduler_run_load"] = True
+        # twins: strategies of one model that tie on runtime and batch size and differ only in their resources
+        # (an order among them must not come from anything process-specific)
+        rt_ = random.Random(f"{seed}:c09:twins")
+        for pname in sorted(w["profiles"]):
+            if rt_.random() < 0.6:
+                st = dict(rt_.choice(w["profiles"][pname]["strategies"]))
+                st["req"] = dict(st["req"], **{"RAM:any": 1})
+                w["profiles"][pname]["strategies"].insert(rt_.randrange(len(w["profiles"][pname]["strategies"]) + 1), st)
     # make sure randomness is in play: deadline variance on every graph
     for g in w["graphs"]:
         if g.get("deadline_variance") in (None, [0, 0]) and r.random() < 0.7:
